@@ -1,6 +1,7 @@
 CONSTANTS
   LitPlusSet = {TRUE, FALSE}
   Utf8Set = {TRUE, FALSE}
+  SaslSet = {TRUE, FALSE}
   MaxDepth = 3
   GenUnits <- CoreUnits
 INIT GenInit
